@@ -324,7 +324,7 @@ class PDB(Spec):
         _title_axis(),
         ("bonds", ["last-atoms", "none", "one", "few", "ten", "hub", "chain"]),
         ("atffparams", ["none", "attypes", "restypes+resnums", "all", "wide-resnums"]),
-        ("extra", ["none", "occupancies+bfactors", "chainids", "compound", "compound-multiline", "compound-14-lines", "all"]),
+        ("extra", ["none", "occupancies+bfactors", "chainids", "compound", "compound-multiline", "compound-14-lines", "all", "bfactors-only", "occupancies-only"]),
     ]
 
     def build(self, case, seed):
@@ -350,8 +350,9 @@ class PDB(Spec):
         if ff:
             kw["atffparams"] = ff
         ex = {}
-        if case["extra"] in ("occupancies+bfactors", "all"):
+        if case["extra"] in ("occupancies+bfactors", "all", "occupancies-only"):
             ex["occupancies"] = np.round(0.25 + (np.arange(n) % 4) * 0.25, 2)
+        if case["extra"] in ("occupancies+bfactors", "all", "bfactors-only"):
             ex["bfactors"] = np.round(10.0 + (np.arange(n) % 89) * 0.37, 2)
         if case["extra"] in ("chainids", "all"):
             ex["chainids"] = np.array(["ABC"[(i // 5) % 3] for i in range(n)])
